@@ -1,0 +1,70 @@
+//go:build verif
+
+package trie
+
+// Machine-checked contracts for /verif/govc (contract-based deductive
+// verification). Comments only; this file compiles to nothing and is only
+// read with the build tag "verif".
+//
+// Trie nodes are heap objects; the global well-formedness assumption used by
+// every method is that child pointers stored in a node's map are non-nil
+// (maintained by Add, the only place that stores into a map).
+
+//@ func Trie.Has
+//@   props C15
+//@   readonly-heap
+//@   requires t != nil
+//@   requires forall x ref, k int :: has(x.m, k) ==> x.m[k] != nil
+//@   ensures len(b) == 0 ==> result
+//@   loop 1
+//@     invariant cur != nil && len(b) <= len(old(b))
+//@     decreases len(b)
+
+//@ func Trie.Add
+//@   props C15
+//@   thin
+//@   requires t != nil
+//@   requires forall x ref :: x != nil ==> !isnil(x.m)
+//@   modifies-heap github.com/fluhus/biostuff/trie.Trie.m
+//@   loop 1
+//@     invariant cur != nil && !isnil(cur.m)
+//@     invariant forall x ref :: x != nil ==> !isnil(x.m)
+//@     decreases len(b)
+
+//@ func Trie.Delete
+//@   props C15
+//@   thin
+//@   requires t != nil
+//@   requires forall x ref, k int :: has(x.m, k) ==> x.m[k] != nil
+//@   modifies-heap github.com/fluhus/biostuff/trie.Trie.m
+//@   loop 1
+//@     invariant cur != nil && len(stack) == len(b)
+//@     invariant forall j int :: 0 <= j && j < i ==> stack[j] != nil
+//@   loop 2
+//@     invariant len(stack) == len(b) && 0-1 <= i && i < len(stack)
+//@     invariant forall j int :: 0 <= j && j < len(stack) ==> stack[j] != nil
+
+//@ func Trie.keys
+//@   props C15 C18
+//@   readonly-heap
+//@   requires t != nil
+//@   ensures len(result) == len(t.m)
+//@   ensures forall j int :: 0 <= j && j < len(result) ==> has(t.m, result[j])
+//@   loop 1
+//@     invariant len(result) == seenN
+//@     invariant forall j int :: 0 <= j && j < len(result) ==> has(t.m, result[j])
+
+//@ func Trie.ForEach
+//@   props C15 C18
+//@   callback f
+//@   readonly-heap
+//@   requires t != nil
+//@   requires forall x ref, k int :: has(x.m, k) ==> x.m[k] != nil
+//@   modifies-heap github.com/fluhus/biostuff/trie.forEachStep.t github.com/fluhus/biostuff/trie.forEachStep.k github.com/fluhus/biostuff/trie.forEachStep.i
+//@   loop 1
+//@     invariant len(stack) >= 1 && len(cur) == len(stack) - 1 && !stopped
+//@     invariant forall j int :: 0 <= j && j < len(stack) ==> stack[j] != nil && stack[j].t != nil &&
+//@                 len(stack[j].k) == len(stack[j].t.m) && 0 <= stack[j].i && stack[j].i <= len(stack[j].k) &&
+//@                 forall q int :: 0 <= q && q < len(stack[j].k) ==> has(stack[j].t.m, stack[j].k[q])
+//@     invariant forall a int, b int :: 0 <= a && a < b && b < len(stack) ==> stack[a] != stack[b]
+//@     invariant forall j int :: 0 <= j && j < len(stack) ==> stack[j] <= alloc
